@@ -65,6 +65,7 @@ struct Ran {
     log_from: usize,
     log_to: usize,
     bytes: usize,
+    broken_pipe: bool,
 }
 
 fn child_cmd(helper: &std::path::Path, b: Behaviour, fd: i32, code: u8) -> Exec {
@@ -172,8 +173,15 @@ fn run_case(case: DropCase, helper: std::path::PathBuf, markers: std::path::Path
             // input data only for a child that reads it (a child that exits without
             // reading makes the parent's write fail with EPIPE, legitimately)
             let e = child_cmd(&helper, case.behaviour, 1, case.exit_code).stdout(Redirection::Pipe);
-            let e = if case.behaviour == Behaviour::ReadToEof { e.stdin(vec![b'i'; 300_000]) } else { e.stdin(NullFile) };
+            // ExitNow / ExitAfter with input data: the child exits without reading, the
+            // parent's write fails with EPIPE and capture() returns Err - the error path
+            // must reap the child as well
+            let feeds = matches!(case.behaviour, Behaviour::ReadToEof | Behaviour::ExitNow | Behaviour::ExitAfter(_));
+            let e = if feeds { e.stdin(vec![b'i'; 300_000]) } else { e.stdin(NullFile) };
             match e.capture() {
+                Err(subprocess::PopenError::IoError(ioe)) if ioe.kind() == std::io::ErrorKind::BrokenPipe && case.behaviour != Behaviour::ReadToEof => {
+                    ran.broken_pipe = true;
+                }
                 Err(e) => ran.error = Some(err(e)),
                 Ok(c) => ran.bytes = c.stdout.len(),
             }
@@ -252,7 +260,8 @@ fn pending_class(case: &DropCase) -> Option<String> {
     let unwritten = matches!((case.handle, case.behaviour), (Handle::StreamStdin | Handle::PipeStreamStdin | Handle::PopenPlain, Behaviour::ReadToEof));
     let outlive = matches!(case.handle, Handle::PipeJoin | Handle::PipeCapture | Handle::PipeStreamStdout | Handle::PipeStreamStdin) && case.stage_delay_ms > 0;
     let detached = matches!(case.handle, Handle::PopenDetachedCfg | Handle::PopenDetachCall);
-    if unread || unwritten || outlive || detached {
+    let err_path = case.handle == Handle::ExecCapture && matches!(case.behaviour, Behaviour::ExitNow | Behaviour::ExitAfter(_));
+    if unread || unwritten || outlive || detached || err_path {
         let b = match case.behaviour {
             Behaviour::ExitNow => "exit".to_string(),
             Behaviour::ExitAfter(_) => "exit-late".to_string(),
@@ -265,7 +274,7 @@ fn pending_class(case: &DropCase) -> Option<String> {
             DropPoint::AfterPartial(_) => "after-partial",
             DropPoint::AfterEof => "after-eof",
         };
-        Some(format!("{:?}|{}|{}|unread{}|unwritten{}|outlive{}", case.handle, b, d, unread as u8, unwritten as u8, outlive as u8))
+        Some(format!("{:?}|{}|{}|unread{}|unwritten{}|outlive{}|errpath{}", case.handle, b, d, unread as u8, unwritten as u8, outlive as u8, err_path as u8))
     } else {
         None
     }
@@ -302,6 +311,9 @@ pub fn check_case(ctx: &Ctx, case: &DropCase, rep: &mut CaseReport) -> CaseResul
     if let Some(e) = ran.error {
         reap_all();
         return fail("unexpected-error", e);
+    }
+    if ran.broken_pipe {
+        rep.count("capture_error_paths", 1);
     }
     let detached = matches!(case.handle, Handle::PopenDetachedCfg | Handle::PopenDetachCall);
     if detached {
@@ -369,7 +381,7 @@ pub fn case_strategy() -> impl Strategy<Value = DropCase> {
 
 fn worker(ctx: &Ctx) {
     quiet_panics();
-    let n = ctx.tier.pick(80, 3000);
+    let n = ctx.tier.pick(300, 3000);
     ctx.explore("real", "c12", case_strategy(), n, 150, |c, rep| check_case(ctx, c, rep));
 }
 
